@@ -20,7 +20,7 @@ ASSUMPTIONS = [
 ]
 
 PREAMBLE = (r'\newcounter{zzc}\setcounter{zzc}{3}\newcounter{zzs}\newcount\zzr \zzr=2\relax '
-            r'\newdimen\zzd \zzd=3pt\relax \def\zzn{2}\def\zzma{xy}\def\zzmb{xy}\def\zzmc{xz}\newif\ifzzsw ')
+            r'\newdimen\zzd \zzd=3pt\relax \def\zzn{2}\def\zzma{xy}\def\zzmb{xy}\def\zzmc{xz}\newif\iffizz ')
 
 # boolean tests: (source, truth) ; 'SW' = depends on the switch state
 BOOL = [
@@ -29,14 +29,15 @@ BOOL = [
     (r'\ifnum 0=0\relax ', True), (r'\ifnum\zzr=2\relax ', True), (r'\ifnum\zzr>\zzr\relax ', False),
     (r'\ifnum\value{zzc}>\zzn\relax ', True), (r'\ifnum\zzn=\value{zzc}\relax ', False),
     (r'\ifdim 1pt<2pt\relax ', True), (r'\ifdim 1in=72.27pt\relax ', True), (r'\ifdim\zzd<1pt\relax ', False),
-    (r'\ifdim 2\zzd=6pt\relax ', True),
+    (r'\ifdim 2\zzd=6pt\relax ', True), (r'\ifdim 1sp=5sp\relax ', False), (r'\ifdim 0pt=3sp\relax ', False),
+    (r'\ifdim 65536sp=1pt\relax ', True), (r'\ifdim -2sp<2sp\relax ', True),
     (r'\ifodd 3\relax ', True), (r'\ifodd 4\relax ', False), (r'\ifodd -1\relax ', True), (r'\ifodd\zzr\relax ', False),
     (r'\ifx aa', True), (r'\ifx ab', False), (r'\ifx\zzma\zzmb ', True), (r'\ifx\zzma\zzmc ', False),
     (r'\ifdefined\zzma ', True), (r'\ifdefined\zzundefd ', False),
-    (r'\ifzzsw ', 'SW'),
+    (r'\iffizz ', 'SW'),
 ]
 # representative subset used as the *outer* test at the deepest level
-BOOL_SMALL = [0, 1, 3, 8, 12, 15, 19, 20, 23, 24]
+BOOL_SMALL = [0, 1, 3, 8, 12, 14, 19, 23, 24, 27, 28]
 SEL_SRC = {2: r'\zzr', 3: r'\value{zzc}'}     # selectors that can also come from a register / counter
 
 
@@ -120,7 +121,7 @@ class Printer(object):
         self.n += 1
         s = marker(2 * i) + r'\addtocounter{zzs}{%d}' % (1 << i)
         if self.setters:
-            s += r'\zzswtrue ' if i % 2 == 0 else r'\zzswfalse '
+            s += r'\fizztrue ' if i % 2 == 0 else r'\fizzfalse '
         if child is not None:
             s += self.cond(child)
         s += ' ' + marker(2 * i + 1)
@@ -212,7 +213,7 @@ WRAPPERS = ['top', 'group', 'body', 'arg']
 
 def program(node, wrapper, setters, sw0):
     p = Printer(setters).cond(node)
-    probe = r'\ifzzsw qst\else qsf\fi '
+    probe = r'\iffizz qst\else qsf\fi '
     if wrapper == 'top':
         core_ = p
     elif wrapper == 'group':
@@ -223,7 +224,7 @@ def program(node, wrapper, setters, sw0):
         core_ = r'\def\zzw#1{[#1]}\zzw{' + p + '}'
     else:
         raise ValueError(wrapper)
-    return PREAMBLE + (r'\zzswtrue ' if sw0 else '') + 'qbeg ' + core_ + 'qend ' + probe
+    return PREAMBLE + (r'\fizztrue ' if sw0 else '') + 'qbeg ' + core_ + 'qend ' + probe
 
 
 def expect(node, wrapper, setters, sw0):
@@ -248,8 +249,8 @@ def observe(src):
             text = ''.join(doc.textContent.split())
             return {'text': text, 'mask': doc.context.counters['zzs'].value,
                     'depth': len(doc.context.contexts)}
-    except core.Timeout:
-        return {'error': 'timeout'}
+    except core.Timeout as e:
+        return {'error': 'timeout: %s' % e}
     except Exception as e:
         return {'error': '%s: %s' % (type(e).__name__, str(e)[:80])}
 
